@@ -54,6 +54,12 @@ impl Vm {
     fn pop(&mut self) -> (r: Value) requires old(self).stack.len() > 0 ensures r == old(self).stack.last(), final(self).stack == old(self).stack.drop_last(), final(self).raised == old(self).raised { unimplemented!() }
     #[verifier::external_body]
     fn push(&mut self, value: Value) ensures final(self).stack == old(self).stack.push(value), final(self).raised == old(self).raised { unimplemented!() }
+    // `self.push(op(a, b))`: the closure's result for (a, b) is pushed (a stub, because Verus does not instantiate a
+    // quantified closure precondition with doubles destructured out of an enum payload — measured, see DESIGN §8)
+    #[verifier::external_body]
+    fn push_result_of<F: Fn(f64, f64) -> Value>(&mut self, op: &F, a: f64, b: f64)
+        ensures final(self).stack.len() == old(self).stack.len() + 1, final(self).stack.drop_last() == old(self).stack, call_ensures(*op, (a, b), final(self).stack.last()), final(self).raised == old(self).raised
+    { unimplemented!() }
     #[verifier::external_body]
     fn try_handle_error(&mut self, error: Error) -> (r: Result<(), Error>) ensures final(self).raised == Some(error.kind), final(self).stack.len() >= 0 { unimplemented!() }
     #[verifier::external_body]
@@ -63,8 +69,10 @@ impl Vm {
     //@fn file=yarel/src/vm.rs path=Vm::binary_op_impl ret=r
     //@  rewrite R1
     //@  sig "op: fn(f64, f64) -> Value" => "op: impl Fn(f64, f64) -> Value"
-    //@  subst "self.push(op(first, second));" => "let verif_v = op(f64_id(first), f64_id(second)); self.push(verif_v);"
-    //@  requires old(self).stack.len() >= 2, forall|a: f64, b: f64| call_requires(op, (a, b))
+    //@  subst "self.push(op(" => "self.push_result_of(&op, "
+    //@  subst "second));" => "second);"
+    //@  subst "first));" => "first);"
+    //@  requires old(self).stack.len() >= 2
     //@  ensures @left_operand_is_the_one_pushed_first (old(self).top(1) is Number && old(self).top(0) is Number) ==> r is Ok && final(self).stack.len() == old(self).stack.len() - 1 && final(self).stack.drop_last() == old(self).below2() && call_ensures(op, (old(self).top(1)->Number_0, old(self).top(0)->Number_0), final(self).stack.last()) && final(self).raised == old(self).raised
     //@  ensures @non_numeric_operands_are_a_type_error !(old(self).top(1) is Number && old(self).top(0) is Number) ==> final(self).raised == Some(ErrorKind::TypeError)
     //@end
